@@ -8,9 +8,9 @@ git checkout -q -- . ; rm -f "go/$pkg/$demo"
 git apply "$d/patch.diff" || { echo "CONFIRM: patch does not apply"; exit 2; }
 ( cd go && go test -count=1 "./$pkg/" >/tmp/confirm_existing.log 2>&1 ); e1=$?
 cp "$d/demo_test.go" "go/$pkg/$demo"
-( cd go && go test -count=1 -run 'Demo|Verif|Seeded' "./$pkg/" >/tmp/confirm_demo_with.log 2>&1 ); e2=$?
+( cd go && go test ${SEED_TAGS:+-tags $SEED_TAGS} -count=1 -run 'Demo|Verif|Seeded' "./$pkg/" >/tmp/confirm_demo_with.log 2>&1 ); e2=$?
 git apply -R "$d/patch.diff"
-( cd go && go test -count=1 -run 'Demo|Verif|Seeded' "./$pkg/" >/tmp/confirm_demo_without.log 2>&1 ); e3=$?
+( cd go && go test ${SEED_TAGS:+-tags $SEED_TAGS} -count=1 -run 'Demo|Verif|Seeded' "./$pkg/" >/tmp/confirm_demo_without.log 2>&1 ); e3=$?
 rm -f "go/$pkg/$demo"; git checkout -q -- .
 echo "CONFIRM existing-tests-with-patch=$e1 (want 0) demo-with-patch=$e2 (want non-0) demo-without-patch=$e3 (want 0)"
 [ $e1 = 0 ] && [ $e2 != 0 ] && [ $e3 = 0 ]
